@@ -87,6 +87,9 @@ fn inv(op: &Op, _ctx: &dyn Context, operands: &mut dyn CoordinateSet) -> usize {
                     let d = t - coord + t2;
                     t = t - d;
                     if d[0].hypot(d[1]) < 1e-12 {
+                        // Only the horizontal position is shifted
+                        t[2] = coord[2];
+                        t[3] = coord[3];
                         operands.set_coord(i, &t);
                         successes += 1;
                         continue 'points;
@@ -94,12 +97,14 @@ fn inv(op: &Op, _ctx: &dyn Context, operands: &mut dyn CoordinateSet) -> usize {
                     continue;
                 }
 
-                // The iteration has wandered off the grids, so we stomp
-                // on the coordinate and go on with the next
-                operands.set_coord(i, &Coor4D::nan());
-                continue 'points;
+                // The iteration has wandered off the grids
+                break;
             }
         }
+
+        // Outside of the coverage (from the start, or on the way), or not converged
+        // in 10 rounds: we stomp on the coordinate and go on with the next
+        operands.set_coord(i, &Coor4D::nan());
     }
 
     successes
